@@ -3,9 +3,14 @@
 
   Everything is stated over `Ptk.Model.C07` (hand translation of buffer.py
   `save_to_undo_stack` / `undo` / `redo` / `reset` and of
-  `KeyProcessor._call_handler`), for ALL sessions: any number of commands, any
-  handler bodies (`Buf → Buf` parameters), any `save_before` rules, any initial
-  document.
+  `KeyProcessor._call_handler` / `reset` / `_process_cpr_response`), for ALL sessions: any number of
+  items (commands — also ones whose handler raises, or that act on a read-only buffer —,
+  `KeyProcessor.reset()`, cursor position reports, edits made outside a command), any handler
+  bodies (`Buf → Buf` parameters), any `save_before` value at every call, any initial document.
+
+  Other modules: `C07Group` (which runs are grouped), `C07RO` (exceptions, read-only buffers, a new
+  prompt on the same objects), `C07Table` (the regenerated binding table; hypothesis-free instances),
+  `C07Multi` (several buffers / focus changes).
 
   Ghost state: `G.log` = the (text, cursor) states the buffer held at the command
   boundaries so far, newest first (the state at the moment `_call_handler` is
@@ -20,14 +25,14 @@ open Ptk.Py
 /-- **stack_sublist_log.**  After any session the undo stack (top first) is a SUBSEQUENCE of the log
     of (text, cursor) states held at command boundaries (newest first): every entry is a state the
     buffer really had at a boundary, cursor included, and the entries are in chronological order. -/
-theorem stack_sublist_log (rule : Nat → Bool → Bool) (cmds : List Cmd) (b0 : Buf) :
-    (runG rule cmds (gInit b0)).k.st.undo.Sublist (runG rule cmds (gInit b0)).log :=
-  (inv_run rule cmds _ (inv_init b0)).1
+theorem stack_sublist_log (items : List Item) (b0 : Buf) :
+    (runG items (gInit b0)).k.st.undo.Sublist (runG items (gInit b0)).log :=
+  (inv_run items _ (inv_init b0)).1
 
 /-- **redo_mem_log.**  Every redo entry is a state held at a command boundary. -/
-theorem redo_mem_log (rule : Nat → Bool → Bool) (cmds : List Cmd) (b0 : Buf) :
-    ∀ r ∈ (runG rule cmds (gInit b0)).k.st.redo, r ∈ (runG rule cmds (gInit b0)).log :=
-  (inv_run rule cmds _ (inv_init b0)).2
+theorem redo_mem_log (items : List Item) (b0 : Buf) :
+    ∀ r ∈ (runG items (gInit b0)).k.st.redo, r ∈ (runG items (gInit b0)).log :=
+  (inv_run items _ (inv_init b0)).2
 
 /-- **undo_spec.**  What one `Buffer.undo()` does: either every stack entry carries the current
     text (then nothing is restored and the stack is emptied), or the stack splits as
@@ -48,12 +53,12 @@ theorem undo_spec (s : St) :
     restores a (text, cursor) pair that the buffer held at a STRICTLY EARLIER command boundary
     (the log does not yet contain the boundary of the undo command itself), whose text differs
     from the text that is undone.  No text is ever invented. -/
-theorem undo_restores_logged (rule : Nat → Bool → Bool) (cmds : List Cmd) (b0 : Buf) :
-    let g := runG rule cmds (gInit b0)
+theorem undo_restores_logged (items : List Item) (b0 : Buf) :
+    let g := runG items (gInit b0)
     (undo g.k.st).buf = g.k.st.buf ∨
       ((undo g.k.st).buf ∈ g.log ∧ (undo g.k.st).buf.text ≠ g.k.st.buf.text) := by
   intro g
-  have hU : g.k.st.undo.Sublist g.log := stack_sublist_log rule cmds b0
+  have hU : g.k.st.undo.Sublist g.log := stack_sublist_log items b0
   cases hl : undoLoop g.k.st.buf g.k.st.undo with
   | none => left; rw [undo_none hl]
   | some p =>
@@ -62,6 +67,18 @@ theorem undo_restores_logged (rule : Nat → Bool → Bool) (cmds : List Cmd) (b
     rw [undo_some hl]
     obtain ⟨pre, h1, _, h3⟩ := undoLoop_some hl
     exact ⟨hU.subset (by rw [h1]; simp), h3⟩
+
+/-- **redo_restores_logged.**  After any session, a redo either changes nothing or restores a (text, cursor)
+    pair that the buffer held at a command boundary: redo never invents a state either. -/
+theorem redo_restores_logged (items : List Item) (b0 : Buf) :
+    let g := runG items (gInit b0)
+    (redo g.k.st).buf = g.k.st.buf ∨ (redo g.k.st).buf ∈ g.log := by
+  intro g
+  have hR := redo_mem_log items b0
+  unfold redo
+  cases hr : g.k.st.redo with
+  | nil => left; rfl
+  | cons r rest => right; exact hR r (by rw [hr]; simp)
 
 /-- the trace of successive undos is a subsequence of the undo stack -/
 theorem undoTrace_sublist (n : Nat) (s : St) : (undoTrace n s).Sublist s.undo := by
@@ -104,9 +121,9 @@ theorem undoTrace_get (n : Nat) (s : St) (i : Nat) (b : Buf) (hi : (undoTrace n 
     ANY number of successive undos, in the order in which they are restored, form a subsequence of
     the boundary log read from newest to oldest: each undo step lands strictly further back in the
     history than the previous one, on a state that was really held. -/
-theorem undo_walks_back (rule : Nat → Bool → Bool) (cmds : List Cmd) (b0 : Buf) (n : Nat) :
-    (undoTrace n (runG rule cmds (gInit b0)).k.st).Sublist (runG rule cmds (gInit b0)).log :=
-  (undoTrace_sublist n _).trans (stack_sublist_log rule cmds b0)
+theorem undo_walks_back (items : List Item) (b0 : Buf) (n : Nat) :
+    (undoTrace n (runG items (gInit b0)).k.st).Sublist (runG items (gInit b0)).log :=
+  (undoTrace_sublist n _).trans (stack_sublist_log items b0)
 
 /-! ## 2. Redo exactly reverses undo -/
 
@@ -163,265 +180,117 @@ theorem undoN_reaches_bottom (n : Nat) (s : St) (hn : s.undo.length ≤ n) :
   refine ⟨?_, he⟩
   rw [← hb]; unfold botText; rw [he]; simp
 
-/-- **undo_reaches_initial.**  After ANY well-formed session from ANY initial document, undoing at
-    least as many times as the undo stack is high ends on the text the session started with (and
-    further undos stay there: the stack is empty). -/
-theorem undo_reaches_initial (rule : Nat → Bool → Bool) (isEditH : Nat → Bool) (cmds : List Cmd)
-    (b0 : Buf) (hwf : WF rule isEditH cmds) (n : Nat)
-    (hn : (runK rule cmds (kInit b0)).st.undo.length ≤ n) :
-    (undoN n (runK rule cmds (kInit b0)).st).buf.text = b0.text ∧
-      (undoN n (runK rule cmds (kInit b0)).st).undo = [] := by
-  have hI := sinv_run rule isEditH b0.text cmds (kInit b0) hwf (sinv_init isEditH b0)
+/-- **undo_reaches_initial_disciplined** (the semantic form).  After ANY session in which no item changes
+    the text without a snapshot (`Disciplined`: every text-changing edit is saved at its own boundary or
+    happens inside a group while the stack is non-empty; external edits only while a snapshot exists),
+    undoing at least as many times as the stack is high ends on the text the session started with. -/
+theorem undo_reaches_initial_disciplined (items : List Item) (b0 : Buf)
+    (hd : Disciplined items (kInit b0)) (n : Nat) (hn : (runI items (kInit b0)).st.undo.length ≤ n) :
+    (undoN n (runI items (kInit b0)).st).buf.text = b0.text ∧
+      (undoN n (runI items (kInit b0)).st).undo = [] := by
+  have hI := botText_run items (kInit b0) hd
   have := undoN_reaches_bottom n _ hn
-  exact ⟨this.1.trans hI.1, this.2⟩
+  exact ⟨this.1.trans (hI.trans (by simp [botText, kInit, reset])), this.2⟩
 
-/-- **edit_discards_redo.**  In ANY well-formed session, right after ANY editing command the redo
-    stack is empty — also when the command did not save because it was a repeat (then the redo
-    stack had already been emptied when the run of repeats started). -/
-theorem edit_discards_redo (rule : Nat → Bool → Bool) (isEditH : Nat → Bool) (cmds : List Cmd)
-    (c : Cmd) (b0 : Buf) (hwf : WF rule isEditH (cmds ++ [c])) (hc : c.body.isEdit = true) :
-    (runK rule (cmds ++ [c]) (kInit b0)).st.redo = [] := by
-  have hI := sinv_run rule isEditH b0.text (cmds ++ [c]) (kInit b0) hwf (sinv_init isEditH b0)
-  have hp : (runK rule (cmds ++ [c]) (kInit b0)).prev = some c.h := by
-    simp [runK, List.foldl_append, stepK_eq]
+/-- **undo_reaches_initial.**  After ANY well-formed session (a STATIC condition on the bindings: `WF`)
+    from ANY initial document — commands whose handler raised, `KeyProcessor.reset()`, cursor position
+    reports and covered external edits included — undoing at least as many times as the undo stack
+    is high ends on the text the session started with (and further undos stay there). -/
+theorem undo_reaches_initial (isEditH : Nat → Bool) (items : List Item) (b0 : Buf)
+    (hwf : WF isEditH items) (hext : ExtOK items (kInit b0)) (n : Nat)
+    (hn : (runI items (kInit b0)).st.undo.length ≤ n) :
+    (undoN n (runI items (kInit b0)).st).buf.text = b0.text ∧
+      (undoN n (runI items (kInit b0)).st).undo = [] :=
+  undo_reaches_initial_disciplined items b0
+    (wf_disciplined isEditH items (kInit b0) hwf hext (pinv_init isEditH b0)).1 n hn
+
+/-- **edit_discards_redo_disciplined** (semantic form).  In a disciplined session, right after ANY command
+    whose body is an edit that changed the text, the redo stack is empty. -/
+theorem edit_discards_redo_disciplined (items : List Item) (c : Cmd) (f : Buf → Buf) (k0 : KSt)
+    (hd : Disciplined (items ++ [.cmd c]) k0) (hc : c.body = .edit f)
+    (hne : (f (runI items k0).st.buf).text ≠ (runI items k0).st.buf.text) :
+    (runI (items ++ [.cmd c]) k0).st.redo = [] := by
+  have hcov : c.Covered (runI items k0) := by
+    have : ∀ (its : List Item) (k : KSt), Disciplined (its ++ [.cmd c]) k → c.Covered (runI its k) := by
+      intro its
+      induction its with
+      | nil => intro k h; exact h.1
+      | cons it its ih => intro k h; exact ih _ h.2
+    exact this items k0 hd
+  rw [runI_append]
+  show (stepK (runI items k0) c).st.redo = []
+  rw [stepK_eq, hc]
+  simp only [Body.run]
+  simp only [Cmd.Covered, hc] at hcov
+  unfold boundary
+  rcases hcov with hs | ⟨_, hr⟩ | ht
+  · rw [if_pos hs]; exact saveToUndo_true_redo _
+  · split
+    · exact saveToUndo_true_redo _
+    · exact hr
+  · exact absurd ht hne
+
+/-- **edit_discards_redo.**  In ANY well-formed session, right after ANY editing command that did not
+    raise the redo stack is empty — also when the command did not save because it was a repeat (then
+    the redo stack had already been emptied when the run of repeats started). -/
+theorem edit_discards_redo (isEditH : Nat → Bool) (items : List Item) (c : Cmd) (b0 : Buf)
+    (hwf : WF isEditH (items ++ [.cmd c])) (hext : ExtOK (items ++ [.cmd c]) (kInit b0))
+    (hc : c.body.isEdit = true) (ho : c.out ≠ .raised) :
+    (runI (items ++ [.cmd c]) (kInit b0)).st.redo = [] := by
+  have hI := (wf_disciplined isEditH (items ++ [.cmd c]) (kInit b0) hwf hext (pinv_init isEditH b0)).2
+  have hp : (runI (items ++ [.cmd c]) (kInit b0)).prev = some c.h := by
+    rw [runI_append]
+    show (stepK _ c).prev = _
+    rw [stepK_eq]
+    cases hco : c.out <;> simp [prevAfter, hco] at ho ⊢
   have hE : isEditH c.h = true := by rw [← hwf.kind c (by simp)]; exact hc
-  exact (hI.2 c.h hp hE).2
+  exact (hI c.h hp hE).2
 
-/-! ## 4. A run of repeats of one grouped handler is undone as one group -/
-
-/-- **group_undone_as_one.**  Let `h` be a handler with the `if_no_repeat` rule (it saves when it
-    is not a repeat and does not save when it is).  From any state whose previous handler is not
-    `h`, run ANY non-empty sequence of calls of `h` (a run of typed characters / of Backspaces).
-    If the run changed the text, ONE undo restores exactly the (text, cursor) from before the
-    run, the redo stack holds exactly the state after the run, and redo brings that state back. -/
-theorem group_undone_as_one (h : Nat) (rule : Bool → Bool) (hr0 : rule false = true)
-    (hr1 : rule true = false) (k0 : KSt) (hp : k0.prev ≠ some h) (f : Buf → Buf)
-    (fs : List (Buf → Buf)) :
-    let k1 := runSame h rule (f :: fs) k0
-    k1.st.buf.text ≠ k0.st.buf.text →
-      (undo k1.st).buf = k0.st.buf ∧ (undo k1.st).redo = [k1.st.buf] ∧
-        (redo (undo k1.st)).buf = k1.st.buf := by
-  intro k1 hne
-  -- the first call is not a repeat: it saves
-  have hfirst : callHandler h rule [Act.edit f] k0 =
-      { st := { (saveToUndo true k0.st) with buf := f k0.st.buf }, prev := some h } := by
-    simp [callHandler_eq, boundary, hp, hr0, act, saveToUndo_buf]
-  obtain ⟨rest, hrest⟩ := saveToUndo_top true k0.st
-  have hrun := runSame_repeat h rule fs (callHandler h rule [Act.edit f] k0) (by rw [hfirst]) hr1
-  have hk1 : k1 = runSame h rule fs (callHandler h rule [Act.edit f] k0) := rfl
-  rw [← hk1, hfirst] at hrun
-  simp only [save_clears_redo] at hrun
-  obtain ⟨hu, hr⟩ := hrun
-  rw [hrest] at hu
-  have hl : undoLoop k1.st.buf k1.st.undo = some (k0.st.buf, rest) := by
-    rw [hu]; unfold undoLoop; rw [if_pos (fun e => hne e.symm)]
-  have hundo := undo_some hl
-  refine ⟨by rw [hundo], by rw [hundo, hr], ?_⟩
-  exact (redo_undo k1.st (by rw [hundo]; exact fun e => hne e.symm)).1
-
-/-- typing a non-empty string changes the text (it gets longer) -/
-theorem runSame_typing_text_ne (h : Nat) (rule : Bool → Bool) (k0 : KSt) (c : Char) (cs : List Char) :
-    (runSame h rule ((c :: cs).map fun ch => insertText [ch]) k0).st.buf.text ≠ k0.st.buf.text := by
-  have hlen : ∀ (fs : List Char) (k : KSt),
-      (runSame h rule (fs.map fun ch => insertText [ch]) k).st.buf.text.length =
-        k.st.buf.text.length + fs.length := by
-    intro fs
-    induction fs with
-    | nil => intro k; rfl
-    | cons x xs ih =>
-      intro k
-      have hstep : (callHandler h rule [Act.edit (insertText [x])] k).st.buf.text.length =
-          k.st.buf.text.length + 1 := by
-        simp only [callHandler_eq, List.foldl_cons, List.foldl_nil, act, boundary_buf, insertText,
-          List.length_append, List.length_take, List.length_drop, List.length_cons, List.length_nil]
-        omega
-      simp only [List.map_cons, runSame, List.foldl_cons]
-      have := ih (callHandler h rule [Act.edit (insertText [x])] k)
-      simp only [runSame] at this
-      rw [this, hstep, List.length_cons]; omega
-  intro e
-  have := hlen (c :: cs) k0
-  rw [e] at this
-  simp at this
-
-/-- **typing_then_undo.**  The everyday instance: after anything that was not self-insert, type ANY
-    non-empty string character by character through a handler with the `if_no_repeat` rule; ONE
-    undo restores exactly the text and cursor from before the first character. -/
-theorem typing_then_undo (h : Nat) (rule : Bool → Bool) (hr0 : rule false = true)
-    (hr1 : rule true = false) (k0 : KSt) (hp : k0.prev ≠ some h) (c : Char) (cs : List Char) :
-    (undo (runSame h rule ((c :: cs).map fun ch => insertText [ch]) k0).st).buf = k0.st.buf :=
-  (group_undone_as_one h rule hr0 hr1 k0 hp (insertText [c]) (cs.map fun ch => insertText [ch])
-    (runSame_typing_text_ne h rule k0 c cs)).1
-
-/-- commands that keep the text (cursor motions, Escape, mode switches, …): any handlers, any rules -/
-def runKeep (ms : List (Nat × (Bool → Bool) × (Buf → Buf))) (k : KSt) : KSt :=
-  ms.foldl (fun k m => callHandler m.1 m.2.1 [Act.edit m.2.2] k) k
-
-/-- **group_then_motions_then_undo.**  As `group_undone_as_one`, but between the run and the undo
-    ANY number of text-preserving commands may happen (e.g. Vi: `i` … typed text … Escape, then
-    `u`; emacs: typed text, cursor keys, then C-_): the first undo still restores exactly the
-    (text, cursor) from before the run. -/
-theorem group_then_motions_then_undo (h : Nat) (rule : Bool → Bool) (hr0 : rule false = true)
-    (hr1 : rule true = false) (k0 : KSt) (hp : k0.prev ≠ some h) (f : Buf → Buf)
-    (fs : List (Buf → Buf)) (ms : List (Nat × (Bool → Bool) × (Buf → Buf)))
-    (hms : ∀ m ∈ ms, ∀ b, (m.2.2 b).text = b.text) :
-    let k1 := runSame h rule (f :: fs) k0
-    k1.st.buf.text ≠ k0.st.buf.text → (undo (runKeep ms k1).st).buf = k0.st.buf := by
-  intro k1 hne
-  -- the stack after the run
-  have hfirst : callHandler h rule [Act.edit f] k0 =
-      { st := { (saveToUndo true k0.st) with buf := f k0.st.buf }, prev := some h } := by
-    simp [callHandler_eq, boundary, hp, hr0, act, saveToUndo_buf]
-  obtain ⟨rest, hrest⟩ := saveToUndo_top true k0.st
-  have hrun := runSame_repeat h rule fs (callHandler h rule [Act.edit f] k0) (by rw [hfirst]) hr1
-  have hk1 : k1 = runSame h rule fs (callHandler h rule [Act.edit f] k0) := rfl
-  rw [← hk1, hfirst] at hrun
-  have hu : k1.st.undo = k0.st.buf :: rest := by rw [hrun.1]; exact hrest
-  -- invariant along the text-preserving commands
-  have hinv : ∀ (ms : List (Nat × (Bool → Bool) × (Buf → Buf))) (k : KSt),
-      (∀ m ∈ ms, ∀ b, (m.2.2 b).text = b.text) →
-      k.st.buf.text = k1.st.buf.text →
-      (k.st.undo = k0.st.buf :: rest ∨ ∃ p, p.text = k1.st.buf.text ∧ k.st.undo = p :: k0.st.buf :: rest) →
-      (undo (runKeep ms k).st).buf = k0.st.buf := by
-    intro ms
-    induction ms with
-    | nil =>
-      intro k _ ht hs
-      have hne' : k0.st.buf.text ≠ k.st.buf.text := by rw [ht]; exact fun e => hne e.symm
-      rcases hs with hs | ⟨p, hpt, hs⟩
-      · have hl : undoLoop k.st.buf k.st.undo = some (k0.st.buf, rest) := by
-          rw [hs]; unfold undoLoop; rw [if_pos hne']
-        show (undo k.st).buf = _
-        rw [undo_some hl]
-      · have hl : undoLoop k.st.buf k.st.undo = some (k0.st.buf, rest) := by
-          rw [hs]; unfold undoLoop
-          rw [if_neg (by rw [hpt, ht]; simp)]
-          unfold undoLoop; rw [if_pos hne']
-        show (undo k.st).buf = _
-        rw [undo_some hl]
-    | cons m ms ih =>
-      intro k hm ht hs
-      apply ih (callHandler m.1 m.2.1 [Act.edit m.2.2] k) (fun m' hm' => hm m' (List.mem_cons_of_mem _ hm'))
-      · simp only [callHandler_eq, List.foldl_cons, List.foldl_nil, act, boundary_buf]
-        rw [hm m (by simp)]; exact ht
-      · simp only [callHandler_eq, List.foldl_cons, List.foldl_nil, act]
-        unfold boundary
-        split
-        · -- the boundary saved
-          unfold saveToUndo
-          rcases hs with hs | ⟨p, hpt, hs⟩
-          · right
-            rw [hs]
-            have : ¬ (k0.st.buf.text = k.st.buf.text) := by rw [ht]; exact fun e => hne e.symm
-            simp only [this, if_false]
-            exact ⟨k.st.buf, ht, rfl⟩
-          · right
-            rw [hs]
-            have : p.text = k.st.buf.text := by rw [hpt, ht]
-            simp only [this, if_true]
-            exact ⟨_, ht, rfl⟩
-        · exact hs
-  exact hinv ms k1 hms rfl (Or.inl hu)
-
-/-! ### cursor position reports are invisible to undo -/
-
-/-- a run of one handler with cursor position reports (`none`) arriving at arbitrary key boundaries -/
-def runSameCpr (h : Nat) (rule : Bool → Bool) (items : List (Option (Buf → Buf))) (k : KSt) : KSt :=
-  items.foldl (fun k it => match it with
-    | some f => callHandler h rule [Act.edit f] k
-    | none => cprResponse k) k
-
-/-- **cpr_keeps_everything.**  A CPR response changes neither the buffer, nor the undo / redo
-    stacks, nor the previous handler. -/
-theorem cpr_keeps_everything (k : KSt) :
-    (cprResponse k).st = k.st ∧ (cprResponse k).prev = k.prev := ⟨rfl, rfl⟩
-
-/-- **cpr_invisible_in_run.**  CPR responses interleaved with the keys of a run change nothing:
-    the result is that of the run without them (same text, same stacks, same grouping). -/
-theorem cpr_invisible_in_run (h : Nat) (rule : Bool → Bool) (items : List (Option (Buf → Buf)))
-    (k : KSt) : runSameCpr h rule items k = runSame h rule (items.filterMap id) k := by
-  induction items generalizing k with
-  | nil => rfl
-  | cons it its ih =>
-    cases it with
-    | none => simpa [runSameCpr, cprResponse] using ih k
-    | some f => simpa [runSameCpr, runSame] using ih (callHandler h rule [Act.edit f] k)
-
-/-- **group_with_cpr_undone_as_one.**  `type a b <CPR> c d`, undo: a run of an `if_no_repeat`
-    handler with CPR responses at ANY key boundaries (before, between, after the keys) is still
-    undone by ONE undo, back to the exact (text, cursor) from before the run. -/
-theorem group_with_cpr_undone_as_one (h : Nat) (rule : Bool → Bool) (hr0 : rule false = true)
-    (hr1 : rule true = false) (k0 : KSt) (hp : k0.prev ≠ some h)
-    (items : List (Option (Buf → Buf))) (f : Buf → Buf) (fs : List (Buf → Buf))
-    (hitems : items.filterMap id = f :: fs) :
-    let k1 := runSameCpr h rule items k0
-    k1.st.buf.text ≠ k0.st.buf.text → (undo k1.st).buf = k0.st.buf := by
-  intro k1 hne
-  have hk : k1 = runSame h rule (f :: fs) k0 := by
-    show runSameCpr h rule items k0 = _
-    rw [cpr_invisible_in_run, hitems]
-  rw [hk] at hne ⊢
-  exact (group_undone_as_one h rule hr0 hr1 k0 hp f fs hne).1
-
-/-- **cpr_through_call_handler_splits_run** (why `_process_cpr_response` must not touch
-    `_previous_handler`): if the report were dispatched like a key — a `_call_handler` of the CPR
-    binding (identity 99, `save_before` never, empty body), which records itself as the previous
-    handler — then after `a b <CPR> c d` one undo would give `ab`, not the text before the run. -/
-theorem cpr_through_call_handler_splits_run :
-    let rule : Bool → Bool := fun rep => !rep
-    let k0 := kInit { text := [], cur := 0 }
-    let k1 := runSame 0 rule [insertText ['a'], insertText ['b']] k0
-    let k2 := callHandler 99 (fun _ => false) [] k1
-    let k3 := runSame 0 rule [insertText ['c'], insertText ['d']] k2
-    (undo k3.st).buf = { text := ['a', 'b'], cur := 2 } ∧
-    (undo (runSame 0 rule [insertText ['c'], insertText ['d']] (cprResponse k1)).st).buf = k0.st.buf := by
-  decide
-
-/-- **ungrouped_when_every_call_saves** (the defect found in /repo, shown on the model).
-    If the effective rule of the self-insert binding is `always` — which is what
-    `KeyBindings.add(..., save_before=if_no_repeat)(<Binding>)` produced before /repo commit 3961882,
-    because the explicit `save_before` was ignored — typing `a`, `b` at `x|y` and undoing once gives
-    `xa|y`, not `x|y`: the run is NOT undone as one group.  (Replayed on the real code by the
-    corpus witness `emacs "x|y" a b C-_`; `group_undone_as_one` is what holds after the fix.) -/
-theorem ungrouped_when_every_call_saves :
-    let k0 := kInit { text := ['x', 'y'], cur := 1 }
-    let k1 := runSame 0 (fun _ => true) [insertText ['a'], insertText ['b']] k0
-    (undo k1.st).buf = { text := ['x', 'a', 'y'], cur := 2 } ∧ (undo k1.st).buf ≠ k0.st.buf := by
-  decide
-
-/-! ## 5. Snapshots are valid documents -/
+/-! ## 4. Snapshots are valid documents -/
 
 /-- **snapshots_valid.**  If the initial document is valid (cursor ≤ len(text)) and every handler
-    body maps valid documents to valid documents, then after any session the current document and
-    every entry of both stacks is valid — so `Document(text, cursor_position=pos)` inside
+    body / external edit maps valid documents to valid documents, then after any session the current
+    document and every entry of both stacks is valid — so `Document(text, cursor_position=pos)` inside
     `undo()` / `redo()` never trips its assertion, and restoring never leaves the cursor outside the text. -/
-theorem snapshots_valid (rule : Nat → Bool → Bool) (cmds : List Cmd) (b0 : Buf) (h0 : Valid b0)
-    (hk : ∀ c ∈ cmds, c.body.KeepsValid) : VInv (runK rule cmds (kInit b0)).st := by
+theorem snapshots_valid (items : List Item) (b0 : Buf) (h0 : Valid b0)
+    (hk : ∀ it ∈ items, it.KeepsValid) : VInv (runI items (kInit b0)).st := by
   have hinit : VInv (kInit b0).st := ⟨h0, by simp [kInit, reset], by simp [kInit, reset]⟩
   generalize kInit b0 = k at hinit
-  induction cmds generalizing k with
+  induction items generalizing k with
   | nil => exact hinit
-  | cons c cs ih =>
+  | cons it its ih =>
     apply ih (fun c' hc' => hk c' (List.mem_cons_of_mem _ hc'))
-    rw [stepK_eq]
-    have hb : VInv (boundary (rule c.h) c.h k) := by
-      unfold boundary; split
-      · exact vinv_save true _ hinit
-      · exact hinit
-    have hkc := hk c (by simp)
-    cases hbody : c.body with
-    | edit f =>
-      rw [hbody] at hkc
-      exact ⟨hkc _ hb.1, hb.2.1, hb.2.2⟩
-    | undo n post =>
-      rw [hbody] at hkc
-      have := vinv_undoN n _ hb
-      exact ⟨hkc _ this.1, this.2.1, this.2.2⟩
-    | redo post =>
-      rw [hbody] at hkc
-      have := vinv_redo _ hb
-      exact ⟨hkc _ this.1, this.2.1, this.2.2⟩
-    | save cl => exact vinv_save cl _ hb
+    have hkc := hk it (by simp)
+    cases it with
+    | kpReset => exact hinit
+    | cpr => exact hinit
+    | ext f => exact ⟨hkc _ hinit.1, hinit.2.1, hinit.2.2⟩
+    | cmd c =>
+      simp only [stepI, stepK_eq]
+      have hb : VInv (boundary c.rule c.h k) := by
+        unfold boundary; split
+        · exact vinv_save true _ hinit
+        · exact hinit
+      simp only [Item.KeepsValid] at hkc
+      cases hbody : c.body with
+      | edit f =>
+        rw [hbody] at hkc
+        exact ⟨hkc _ hb.1, hb.2.1, hb.2.2⟩
+      | undo n post =>
+        rw [hbody] at hkc
+        have := vinv_undoN n _ hb
+        exact ⟨hkc _ this.1, this.2.1, this.2.2⟩
+      | redo post =>
+        rw [hbody] at hkc
+        have := vinv_redo _ hb
+        exact ⟨hkc _ this.1, this.2.1, this.2.2⟩
+      | save cl => exact vinv_save cl _ hb
+      | reset d => rw [hbody] at hkc; exact ⟨hkc, by simp [Body.run, reset], by simp [Body.run, reset]⟩
+      | roUndo fx post =>
+        rw [hbody] at hkc
+        have := vinv_undoRO fx _ hb
+        exact ⟨hkc _ this.1, this.2.1, this.2.2⟩
+      | roRedo fx => exact vinv_redoRO fx _ hb
 
 /-- the Vi cursor fix keeps the text and validity (so it is an admissible `post`) -/
 theorem viFix_text (b : Buf) : (viFix b).text = b.text := by
@@ -432,7 +301,7 @@ theorem viFix_valid (b : Buf) (h : Valid b) : Valid (viFix b) := by
   · exact h
   · unfold Valid at *; simp; omega
 
-/-! ## 6. More structure: undo after redo; at most one snapshot is skipped -/
+/-! ## 5. More structure: undo after redo; at most one snapshot is skipped -/
 
 /-- **undo_redo.**  If `redo` restores a state with a different text, an immediately following
     `undo` brings back exactly the (text, cursor) from before the redo, and the redo stack too. -/
@@ -448,29 +317,37 @@ theorem undo_redo (s : St) (r : Buf) (rest : List Buf) (hr : s.redo = r :: rest)
 
 /-- **stack_adjacent_distinct.**  After any session, neighbouring undo-stack entries always carry
     different texts (a save with an unchanged text only refreshes the cursor of the top entry). -/
-theorem stack_adjacent_distinct (rule : Nat → Bool → Bool) (cmds : List Cmd) (b0 : Buf) :
-    AdjDistinct (runK rule cmds (kInit b0)).st.undo := by
+theorem stack_adjacent_distinct (items : List Item) (b0 : Buf) :
+    AdjDistinct (runI items (kInit b0)).st.undo := by
   have hinit : AdjDistinct (kInit b0).st.undo := by simp [kInit, reset, AdjDistinct]
   generalize kInit b0 = k at hinit
-  induction cmds generalizing k with
+  induction items generalizing k with
   | nil => exact hinit
-  | cons c cs ih =>
+  | cons it its ih =>
     apply ih
-    rw [stepK_eq]
-    have hb : AdjDistinct (boundary (rule c.h) c.h k).undo := by
-      unfold boundary; split
-      · exact adj_saveToUndo true _ hinit
-      · exact hinit
-    generalize boundary (rule c.h) c.h k = s1 at hb
-    cases c.body with
-    | edit f => exact hb
-    | undo n post =>
-      simp only [Body.run]
-      induction n generalizing s1 with
-      | zero => exact hb
-      | succ n ihn => exact ihn _ (adj_undo s1 hb)
-    | redo post => exact adj_redo s1 hb
-    | save cl => exact adj_saveToUndo cl s1 hb
+    cases it with
+    | kpReset => exact hinit
+    | cpr => exact hinit
+    | ext f => exact hinit
+    | cmd c =>
+      simp only [stepI, stepK_eq]
+      have hb : AdjDistinct (boundary c.rule c.h k).undo := by
+        unfold boundary; split
+        · exact adj_saveToUndo true _ hinit
+        · exact hinit
+      generalize boundary c.rule c.h k = s1 at hb
+      cases c.body with
+      | edit f => exact hb
+      | undo n post =>
+        simp only [Body.run]
+        induction n generalizing s1 with
+        | zero => exact hb
+        | succ n ihn => exact ihn _ (adj_undo s1 hb)
+      | redo post => exact adj_redo s1 hb
+      | save cl => exact adj_saveToUndo cl s1 hb
+      | reset d => simp [Body.run, reset, AdjDistinct]
+      | roUndo fx post => exact adj_undoRO fx s1 hb
+      | roRedo fx => exact adj_redoRO fx s1 hb
 
 /-- **undo_skips_at_most_one.**  With neighbouring entries distinct, `undo` discards at most ONE
     snapshot besides the one it restores (the top entry, when it carries the current text). -/
@@ -487,265 +364,7 @@ theorem undo_skips_at_most_one (s : St) (h : AdjDistinct s.undo) (t : Buf) (rest
       rw [h1] at h
       exact absurd ((h2 p (by simp)).trans (h2 q (by simp)).symm) h.1
 
-/-! ## 7. The shipped emacs bindings: hypothesis-free instances
-
-    `EKey` / `ekey` (Model) is the fully modelled key set {printable characters, Backspace, Delete,
-    Left, Right, Home, End, C-k, C-_, C-x C-u, redo}; its rules and handler identities are the ones
-    declared in basic.py / emacs.py, and the correspondence checks on every run that the real
-    `PromptSession` agrees with it key by key (text, cursor, both stacks, previous handler). -/
-
-/-- the same key as a `Cmd` of the general session model -/
-def EKey.toCmd (key : EKey) : Cmd :=
-  { h := key.hid,
-    body := match key with
-      | .char c => .edit (insertText [c])
-      | .backspace => .edit (deleteBefore 1)
-      | .delete => .edit (Ptk.C07.delete 1)
-      | .left => .edit fun b => setCursor ((b.cur : Int) - min (lineBeforeLen b) 1) b
-      | .right => .edit fun b => setCursor ((b.cur : Int) + min (lineAfterLen b) 1) b
-      | .home => .edit fun b => setCursor ((b.cur : Int) - lineBeforeLen b) b
-      | .eol => .edit fun b => setCursor ((b.cur : Int) + lineAfterLen b) b
-      | .killLine => .edit Ptk.C07.killLine
-      | .undo => .undo 1 id
-      | .undoXU => .undo 1 id
-      | .redo => .redo id }
-
-/-- the `save_before` table of the shipped bindings, by handler identity -/
-def eRule : Nat → Bool → Bool := fun h rep =>
-  if h ≤ 2 then !rep else if h ≤ 7 then true else false
-
-/-- handlers 0..7 edit, 8..10 are undo / redo -/
-def eIsEdit : Nat → Bool := fun h => decide (h ≤ 7)
-
-theorem ekey_eq_stepK (k : KSt) (key : EKey) : ekey k key = stepK eRule k key.toCmd := by
-  cases key <;> rfl
-
-/-- a whole emacs key session -/
-def eRun (keys : List EKey) (k : KSt) : KSt := keys.foldl ekey k
-
-theorem eRun_eq_runK (keys : List EKey) (k : KSt) :
-    eRun keys k = runK eRule (keys.map EKey.toCmd) k := by
-  induction keys generalizing k with
-  | nil => rfl
-  | cons x xs ih => simp only [eRun, List.foldl_cons, List.map_cons, runK] at *; rw [ekey_eq_stepK]; exact ih _
-
-theorem eWF (keys : List EKey) : WF eRule eIsEdit (keys.map EKey.toCmd) where
-  saves := by
-    intro h hh
-    simp only [eIsEdit, decide_eq_true_eq] at hh
-    unfold eRule
-    by_cases h2 : h ≤ 2 <;> simp [h2, hh]
-  kind := by
-    intro c hc
-    obtain ⟨key, _, rfl⟩ := List.mem_map.mp hc
-    cases key <;> rfl
-  post := by
-    intro c hc
-    obtain ⟨key, _, rfl⟩ := List.mem_map.mp hc
-    cases key <;> simp [EKey.toCmd, Body.PostKeepsText]
-
-/-- **emacs_undo_reaches_initial.**  For EVERY sequence of these emacs keys from EVERY initial
-    document: undoing at least as often as the stack is high ends on the initial text. -/
-theorem emacs_undo_reaches_initial (keys : List EKey) (b0 : Buf) (n : Nat)
-    (hn : (eRun keys (kInit b0)).st.undo.length ≤ n) :
-    (undoN n (eRun keys (kInit b0)).st).buf.text = b0.text := by
-  rw [eRun_eq_runK] at hn ⊢
-  exact (undo_reaches_initial eRule eIsEdit _ b0 (eWF keys) n hn).1
-
-/-- **emacs_edit_discards_redo.**  For every key sequence: right after any key that is not undo /
-    redo, the redo stack is empty. -/
-theorem emacs_edit_discards_redo (keys : List EKey) (key : EKey) (b0 : Buf)
-    (hk : key ≠ .undo ∧ key ≠ .undoXU ∧ key ≠ .redo) :
-    (eRun (keys ++ [key]) (kInit b0)).st.redo = [] := by
-  rw [eRun_eq_runK, List.map_append]
-  apply edit_discards_redo eRule eIsEdit _ _ b0
-  · have := eWF (keys ++ [key]); rwa [List.map_append] at this
-  · obtain ⟨h1, h2, h3⟩ := hk
-    cases key <;> first | rfl | exact absurd rfl h1 | exact absurd rfl h2 | exact absurd rfl h3
-
-/-- **emacs_undo_lands_on_logged_state.**  For every key sequence, pressing C-_ afterwards either
-    changes nothing or lands on a (text, cursor) the buffer had right before one of the earlier
-    keys, with a different text. -/
-theorem emacs_undo_lands_on_logged_state (keys : List EKey) (b0 : Buf) :
-    let g := runG eRule (keys.map EKey.toCmd) (gInit b0)
-    g.k = eRun keys (kInit b0) ∧
-    ((ekey g.k .undo).st.buf = g.k.st.buf ∨
-      ((ekey g.k .undo).st.buf ∈ g.log ∧ (ekey g.k .undo).st.buf.text ≠ g.k.st.buf.text)) := by
-  intro g
-  refine ⟨by rw [eRun_eq_runK]; exact runG_k _ _ _, ?_⟩
-  have h := undo_restores_logged eRule (keys.map EKey.toCmd) b0
-  have he : (ekey g.k .undo).st = undo g.k.st := by
-    simp [ekey, callHandler_eq, boundary, EKey.rule, EKey.acts, act]
-  rw [he]; exact h
-
-/-- **emacs_typing_then_undo.**  After any key sequence that does not end in a printable character,
-    type any non-empty string and press C-_ once: text and cursor are exactly as before the string. -/
-theorem emacs_typing_then_undo (keys : List EKey) (b0 : Buf) (c : Char) (cs : List Char)
-    (hlast : ∀ k ∈ keys.getLast?, ∀ ch, k ≠ .char ch) :
-    (ekey (eRun ((c :: cs).map EKey.char) (eRun keys (kInit b0))) .undo).st.buf =
-      (eRun keys (kInit b0)).st.buf := by
-  have hp : (eRun keys (kInit b0)).prev ≠ some 0 := by
-    cases hl : keys.getLast? with
-    | none =>
-      have : keys = [] := List.getLast?_eq_none_iff.mp hl
-      subst this; simp [eRun, kInit]
-    | some k =>
-      obtain ⟨ys, rfl⟩ : ∃ ys, keys = ys ++ [k] := by
-        have := List.getLast?_eq_some_iff.mp hl
-        obtain ⟨ys, h⟩ := this; exact ⟨ys, h⟩
-      have hk := hlast k (by simp [hl])
-      simp only [eRun, List.foldl_append, List.foldl_cons, List.foldl_nil, ekey, callHandler_eq]
-      intro e
-      simp only [Option.some.injEq] at e
-      cases k <;> simp [EKey.hid] at e
-      exact hk _ rfl
-  have hrun : ∀ (l : List Char) (k : KSt),
-      eRun (l.map EKey.char) k = runSame 0 (fun rep => !rep) (l.map fun ch => insertText [ch]) k := by
-    intro l
-    induction l with
-    | nil => intro k; rfl
-    | cons x xs ih => intro k; simp only [List.map_cons, eRun, runSame, List.foldl_cons] at *; exact ih _
-  have he : ∀ k : KSt, (ekey k .undo).st = undo k.st := by
-    intro k; simp [ekey, callHandler_eq, boundary, EKey.rule, EKey.acts, act]
-  rw [he, hrun]
-  exact typing_then_undo 0 (fun rep => !rep) rfl rfl _ hp c cs
-
-/-! ## 8. The shipped Vi bindings: hypothesis-free instances
-
-    `VKey` / `vkey` (Model): keys {i, a, x, u, Escape, redo} with the Vi input mode; in insert mode
-    the letters are typed through the self-insert binding (`if_no_repeat`).  Tied to the real
-    `PromptSession(editing_mode=VI)` key by key by the correspondence. -/
-
-def vRule : Nat → Bool → Bool := fun h rep =>
-  if h = 0 then !rep else if h = 10 then false else if h = 24 then false else true
-
-def vIsEdit : Nat → Bool := fun h => !(h == 10 || h == 24)
-
-def vcmd (ins : Bool) (key : VKey) : Cmd :=
-  if ins then
-    match key with
-    | .escape => ⟨20, .edit fun b => viFix (leftInLine b)⟩
-    | .redo => ⟨10, .redo id⟩
-    | key => ⟨0, .edit (insertText [key.letter])⟩
-  else
-    match key with
-    | .i => ⟨21, .edit id⟩
-    | .a => ⟨22, .edit rightInLine⟩
-    | .x => ⟨23, .edit fun b => viFix (viX b)⟩
-    | .u => ⟨24, .undo 1 viFix⟩
-    | .escape => ⟨20, .edit viFix⟩
-    | .redo => ⟨10, .redo viFix⟩
-
-def vmode (ins : Bool) (key : VKey) : Bool :=
-  if ins then key != .escape else (key == .i || key == .a)
-
-theorem vkey_eq (v : VSt) (key : VKey) :
-    vkey v key = { k := stepK vRule v.k (vcmd v.ins key), ins := vmode v.ins key } := by
-  obtain ⟨k, ins⟩ := v
-  cases ins <;> cases key <;> rfl
-
-def vRun (keys : List VKey) (v : VSt) : VSt := keys.foldl vkey v
-
-/-- the commands a key sequence turns into, starting in the given mode -/
-def vcmds : Bool → List VKey → List Cmd
-  | _, [] => []
-  | ins, key :: ks => vcmd ins key :: vcmds (vmode ins key) ks
-
-theorem vRun_k (keys : List VKey) (v : VSt) :
-    (vRun keys v).k = runK vRule (vcmds v.ins keys) v.k := by
-  induction keys generalizing v with
-  | nil => rfl
-  | cons ky xs ih =>
-    simp only [vRun, List.foldl_cons, vcmds, runK] at *
-    rw [ih (vkey v ky), vkey_eq]
-
-theorem vWF (ins : Bool) (keys : List VKey) : WF vRule vIsEdit (vcmds ins keys) where
-  saves := by
-    intro h hh
-    simp only [vIsEdit, Bool.not_eq_true', Bool.or_eq_false_iff, beq_eq_false_iff_ne] at hh
-    unfold vRule
-    by_cases h0 : h = 0 <;> simp [h0, hh.1, hh.2]
-  kind := by
-    intro c hc
-    induction keys generalizing ins with
-    | nil => simp [vcmds] at hc
-    | cons ky xs ih =>
-      simp only [vcmds, List.mem_cons] at hc
-      rcases hc with rfl | hc
-      · cases ins <;> cases ky <;> rfl
-      · exact ih _ hc
-  post := by
-    intro c hc
-    induction keys generalizing ins with
-    | nil => simp [vcmds] at hc
-    | cons ky xs ih =>
-      simp only [vcmds, List.mem_cons] at hc
-      rcases hc with rfl | hc
-      · cases ins <;> cases ky <;> first | exact trivial | exact viFix_text | exact fun _ => rfl
-      · exact ih _ hc
-
-/-- **vi_undo_reaches_initial.**  For EVERY sequence of these Vi keys from EVERY initial document:
-    undoing at least as often as the stack is high ends on the initial text. -/
-theorem vi_undo_reaches_initial (keys : List VKey) (b0 : Buf) (n : Nat)
-    (hn : (vRun keys (vInit b0)).k.st.undo.length ≤ n) :
-    (undoN n (vRun keys (vInit b0)).k.st).buf.text = b0.text := by
-  rw [vRun_k] at hn ⊢
-  exact (undo_reaches_initial vRule vIsEdit _ b0 (vWF true keys) n hn).1
-
-/-- **vi_redo_empty_after_edit.**  For every Vi key sequence: whenever the last handler was not
-    undo / redo, the redo stack is empty. -/
-theorem vi_redo_empty_after_edit (keys : List VKey) (b0 : Buf) (h : Nat)
-    (hp : (vRun keys (vInit b0)).k.prev = some h) (h10 : h ≠ 10) (h24 : h ≠ 24) :
-    (vRun keys (vInit b0)).k.st.redo = [] := by
-  rw [vRun_k] at hp ⊢
-  have hI := sinv_run vRule vIsEdit b0.text (vcmds true keys) (kInit b0) (vWF true keys) (sinv_init vIsEdit b0)
-  exact (hI.2 h hp (by simp [vIsEdit, h10, h24])).2
-
-/-- **vi_insert_escape_u.**  From ANY navigation-mode state: `i`, then any non-empty sequence of
-    typed letters, then Escape, then `u` — the buffer is back at the (text, cursor) it had before
-    `i` (up to the navigation-mode cursor fix): the whole insert is ONE undo step, as in Vim. -/
-theorem vi_insert_escape_u (v : VSt) (hnav : v.ins = false) (c : VKey) (cs : List VKey)
-    (hl : ∀ ky ∈ c :: cs, ky ≠ .escape ∧ ky ≠ .redo) :
-    (vRun ([.i] ++ (c :: cs) ++ [.escape, .u]) v).k.st.buf = viFix v.k.st.buf := by
-  obtain ⟨k, ins⟩ := v
-  simp only at hnav
-  subst hnav
-  -- after `i`
-  let k0 : KSt := callHandler 21 (fun _ => true) [] k
-  have hk0b : k0.st.buf = k.st.buf := by simp [k0, callHandler_eq, boundary_buf]
-  have hk0p : k0.prev ≠ some 0 := by simp [k0, callHandler_eq]
-  -- typed letters = a run of the self-insert handler
-  have hrun : ∀ (l : List VKey) (k' : KSt), (∀ ky ∈ l, ky ≠ .escape ∧ ky ≠ .redo) →
-      vRun l { k := k', ins := true } =
-        { k := runSame 0 (fun rep => !rep) ((l.map VKey.letter).map fun ch => insertText [ch]) k', ins := true } := by
-    intro l
-    induction l with
-    | nil => intro k' _; rfl
-    | cons ky xs ih =>
-      intro k' hx
-      have hx1 := hx ky (by simp)
-      have hstep : vkey { k := k', ins := true } ky =
-          { k := callHandler 0 (fun rep => !rep) [Act.edit (insertText [ky.letter])] k', ins := true } := by
-        cases ky <;> first | rfl | exact absurd rfl hx1.1 | exact absurd rfl hx1.2
-      simp only [vRun, List.foldl_cons, List.map_cons, runSame] at *
-      rw [hstep]
-      exact ih _ (fun y hy => hx y (List.mem_cons_of_mem _ hy))
-  have h1 : vRun ([.i] ++ (c :: cs) ++ [.escape, .u]) { k := k, ins := false } =
-      vkey (vkey (vRun (c :: cs) { k := k0, ins := true }) .escape) .u := by
-    simp only [vRun, List.foldl_append, List.foldl_cons, List.foldl_nil]
-    rfl
-  rw [h1, hrun (c :: cs) k0 hl]
-  have hne := runSame_typing_text_ne 0 (fun rep => !rep) k0 c.letter (cs.map VKey.letter)
-  have hg := group_then_motions_then_undo 0 (fun rep => !rep) rfl rfl k0 hk0p (insertText [c.letter])
-    ((cs.map VKey.letter).map fun ch => insertText [ch])
-    [(20, (fun _ => true), fun b => viFix (leftInLine b))]
-    (by intro m hm b; simp at hm; subst hm; simp [viFix_text, leftInLine, setCursor])
-    (by simpa using hne)
-  simp only [List.map_cons] at hg ⊢
-  rw [← hk0b, ← hg]
-  rfl
-
-/-! ## 9. Non-vacuity: the hypotheses above are satisfiable on concrete, non-trivial sessions -/
+/-! ## 6. Non-vacuity: the hypotheses above are satisfiable on concrete, non-trivial sessions -/
 
 section Examples
 
@@ -756,115 +375,102 @@ def exRule : Nat → Bool → Bool := fun h rep =>
 
 def exIsEdit : Nat → Bool := fun h => h = 0 || h = 1
 
-/-- `x|y` : type a, type b, cursor to 0, type c -/
-def exCmds : List Cmd :=
-  [⟨0, .edit (insertText ['a'])⟩, ⟨0, .edit (insertText ['b'])⟩, ⟨1, .edit (setCursor 0)⟩,
-   ⟨0, .edit (insertText ['c'])⟩]
+def exCmd (h : Nat) (b : Body) : Item := .cmd { h := h, rule := exRule h, body := b }
+
+/-- `x|y` : type a, type b, <CPR>, cursor to 0, type c -/
+def exItems : List Item :=
+  [exCmd 0 (.edit (insertText ['a'])), exCmd 0 (.edit (insertText ['b'])), .cpr, exCmd 1 (.edit (setCursor 0)),
+   exCmd 0 (.edit (insertText ['c']))]
 
 def exB0 : Buf := { text := ['x', 'y'], cur := 1 }
 
 /-- the session really builds a two-entry stack inside a four-entry log (stack_sublist_log is not vacuous) -/
 example :
-    (runG exRule exCmds (gInit exB0)).k.st.undo =
+    (runG exItems (gInit exB0)).k.st.undo =
       [{ text := ['x', 'a', 'b', 'y'], cur := 0 }, { text := ['x', 'y'], cur := 1 }] ∧
-    (runG exRule exCmds (gInit exB0)).log =
+    (runG exItems (gInit exB0)).log =
       [{ text := ['x', 'a', 'b', 'y'], cur := 0 }, { text := ['x', 'a', 'b', 'y'], cur := 3 },
        { text := ['x', 'a', 'y'], cur := 2 }, { text := ['x', 'y'], cur := 1 }] := by decide
 
 /-- undo_restores_logged: the second alternative (a logged state with another text) occurs -/
 example :
-    (undo (runG exRule exCmds (gInit exB0)).k.st).buf = { text := ['x', 'a', 'b', 'y'], cur := 0 } ∧
-    (undo (runG exRule exCmds (gInit exB0)).k.st).buf ≠ (runG exRule exCmds (gInit exB0)).k.st.buf := by
+    (undo (runG exItems (gInit exB0)).k.st).buf = { text := ['x', 'a', 'b', 'y'], cur := 0 } ∧
+    (undo (runG exItems (gInit exB0)).k.st).buf ≠ (runG exItems (gInit exB0)).k.st.buf := by
   decide
 
 /-- undo_walks_back / undoTrace: two successive undos restore two states; redo entries appear (redo_mem_log) -/
 example :
-    undoTrace 5 (runG exRule exCmds (gInit exB0)).k.st =
+    undoTrace 5 (runG exItems (gInit exB0)).k.st =
       [{ text := ['x', 'a', 'b', 'y'], cur := 0 }, { text := ['x', 'y'], cur := 1 }] ∧
-    (runG exRule (exCmds ++ [⟨2, .undo 1 id⟩]) (gInit exB0)).k.st.redo =
+    (runG (exItems ++ [exCmd 2 (.undo 1 id)]) (gInit exB0)).k.st.redo =
       [{ text := ['c', 'x', 'a', 'b', 'y'], cur := 1 }] := by decide
 
 /-- redo_undo / redoN_undoN: their hypotheses hold on the session state -/
-example : (undo (runK exRule exCmds (kInit exB0)).st).buf.text ≠ (runK exRule exCmds (kInit exB0)).st.buf.text ∧
-    UndoChanges 2 (runK exRule exCmds (kInit exB0)).st :=
+example : (undo (runI exItems (kInit exB0)).st).buf.text ≠ (runI exItems (kInit exB0)).st.buf.text ∧
+    UndoChanges 2 (runI exItems (kInit exB0)).st :=
   ⟨by decide, by decide, by decide, trivial⟩
 
 /-- undo_redo: its hypotheses hold after one undo -/
-example : ∃ r rest, (undo (runK exRule exCmds (kInit exB0)).st).redo = r :: rest ∧
-    (undo (runK exRule exCmds (kInit exB0)).st).buf.text ≠ r.text :=
+example : ∃ r rest, (undo (runI exItems (kInit exB0)).st).redo = r :: rest ∧
+    (undo (runI exItems (kInit exB0)).st).buf.text ≠ r.text :=
   ⟨_, _, rfl, by decide⟩
 
-/-- the example binding set / session is well-formed (undo_reaches_initial, edit_discards_redo apply),
-    also with an undo (Vi style, with the cursor fix) and a redo in the middle -/
-theorem exWF : WF exRule exIsEdit
-    (exCmds ++ [⟨2, .undo 2 viFix⟩, ⟨3, .redo viFix⟩, ⟨0, .edit (insertText ['d'])⟩]) where
+/-- a longer session: an undo (Vi style, count 2, with the cursor fix), a redo, a handler that RAISED after
+    inserting `!` (so `_previous_handler` is forgotten), a `KeyProcessor.reset()`, an external edit, one more
+    typed character -/
+def exItems2 : List Item :=
+  exItems ++ [exCmd 2 (.undo 2 viFix), exCmd 3 (.redo viFix),
+    .cmd { h := 0, rule := exRule 0, body := .edit (insertText ['!']), out := .raised },
+    .kpReset, .ext (insertText ['e']), exCmd 0 (.edit (insertText ['d']))]
+
+/-- the example binding set / session is well-formed (undo_reaches_initial, edit_discards_redo apply) -/
+theorem exWF : WF exIsEdit exItems2 where
   saves := by
-    intro h hh
+    intro c _ hh
     simp only [exIsEdit, Bool.or_eq_true, decide_eq_true_eq] at hh
-    rcases hh with rfl | rfl <;> simp [exRule]
+    simp only [exItems2, exItems, exCmd, List.cons_append, List.nil_append, List.mem_cons, List.not_mem_nil,
+      or_false, Item.cmd.injEq, reduceCtorEq, false_or] at *
+    rename_i hc
+    rcases hc with rfl | rfl | rfl | rfl | rfl | rfl | rfl | rfl <;> simp [exRule] at hh ⊢
   kind := by
     intro c hc
-    simp only [exCmds, List.cons_append, List.nil_append, List.mem_cons, List.not_mem_nil, or_false] at hc
-    rcases hc with rfl | rfl | rfl | rfl | rfl | rfl | rfl <;> rfl
+    simp only [exItems2, exItems, exCmd, List.cons_append, List.nil_append, List.mem_cons, List.not_mem_nil,
+      or_false, Item.cmd.injEq, reduceCtorEq, false_or] at hc
+    rcases hc with rfl | rfl | rfl | rfl | rfl | rfl | rfl | rfl <;> rfl
   post := by
     intro c hc
-    simp only [exCmds, List.cons_append, List.nil_append, List.mem_cons, List.not_mem_nil, or_false] at hc
-    rcases hc with rfl | rfl | rfl | rfl | rfl | rfl | rfl <;>
+    simp only [exItems2, exItems, exCmd, List.cons_append, List.nil_append, List.mem_cons, List.not_mem_nil,
+      or_false, Item.cmd.injEq, reduceCtorEq, false_or] at hc
+    rcases hc with rfl | rfl | rfl | rfl | rfl | rfl | rfl | rfl <;>
       first | trivial | exact viFix_text
+  noReset := by
+    intro c hc
+    simp only [exItems2, exItems, exCmd, List.cons_append, List.nil_append, List.mem_cons, List.not_mem_nil,
+      or_false, Item.cmd.injEq, reduceCtorEq, false_or] at hc
+    rcases hc with rfl | rfl | rfl | rfl | rfl | rfl | rfl | rfl <;> rfl
+  roFixed := by
+    intro c hc
+    simp only [exItems2, exItems, exCmd, List.cons_append, List.nil_append, List.mem_cons, List.not_mem_nil,
+      or_false, Item.cmd.injEq, reduceCtorEq, false_or] at hc
+    rcases hc with rfl | rfl | rfl | rfl | rfl | rfl | rfl | rfl <;> trivial
 
-/-- … and in that session the redo stack was NOT empty before the last edit (edit_discards_redo has
-    something to discard), and the final undo stack has height 2 -/
-example :
-    (runK exRule (exCmds ++ [⟨2, .undo 2 viFix⟩, ⟨3, .redo viFix⟩]) (kInit exB0)).st.redo ≠ [] ∧
-    (runK exRule (exCmds ++ [⟨2, .undo 2 viFix⟩, ⟨3, .redo viFix⟩, ⟨0, .edit (insertText ['d'])⟩])
-      (kInit exB0)).st.undo.length = 2 := by decide
-
-/-- group_undone_as_one: hypotheses hold for the `if_no_repeat` rule after a motion command -/
-example :
-    let rule : Bool → Bool := fun rep => !rep
-    let k0 : KSt := { st := { buf := exB0, undo := [{ text := [], cur := 0 }], redo := [exB0] }, prev := some 7 }
-    rule false = true ∧ rule true = false ∧ k0.prev ≠ some 0 ∧
-      (runSame 0 rule [insertText ['a'], insertText ['b'], insertText ['c']] k0).st.buf.text ≠ k0.st.buf.text := by
+/-- its external edit happens while a snapshot exists -/
+theorem exExtOK : ExtOK exItems2 (kInit exB0) := by
+  simp only [exItems2, exItems, exCmd, List.cons_append, List.nil_append, ExtOK, and_true, true_and]
+  left
   decide
 
-/-- typing_then_undo on a concrete state: three typed characters, one undo, the old state is back -/
+/-- … and in that session the redo stack was NOT empty before the raising edit (edit_discards_redo has
+    something to discard), the raising command forgot the previous handler, and the final undo stack has height 3 -/
 example :
-    let k0 : KSt := { st := { buf := exB0, undo := [{ text := [], cur := 0 }], redo := [exB0] }, prev := some 7 }
-    (undo (runSame 0 (fun rep => !rep) (['a', 'b', 'c'].map fun ch => insertText [ch]) k0).st).buf = exB0 ∧
-    (runSame 0 (fun rep => !rep) (['a', 'b', 'c'].map fun ch => insertText [ch]) k0).st.buf =
-      { text := ['x', 'a', 'b', 'c', 'y'], cur := 4 } := by
-  decide
+    (runI (exItems ++ [exCmd 2 (.undo 2 viFix), exCmd 3 (.redo viFix)]) (kInit exB0)).st.redo ≠ [] ∧
+    (runI (exItems2.take 8) (kInit exB0)).prev = none ∧
+    (runI exItems2 (kInit exB0)).st.undo.length = 3 ∧
+    (runI exItems2 (kInit exB0)).st.buf.text = ['!', 'e', 'd', 'x', 'a', 'b', 'y'] := by decide
 
-/-- emacs_typing_then_undo: its side condition holds for a key sequence ending in Left;
-    emacs_edit_discards_redo: there is a non-empty redo stack for C-k to discard -/
-example :
-    (∀ k ∈ ([EKey.char 'a', .left] : List EKey).getLast?, ∀ ch, k ≠ .char ch) ∧
-    (eRun [.char 'a', .char 'b', .left, .char 'c', .undo] (kInit exB0)).st.redo ≠ [] ∧
-    (eRun [.char 'a', .char 'b', .left, .char 'c', .undo, .killLine] (kInit exB0)).st.redo = [] := by
-  refine ⟨?_, by decide, by decide⟩
-  intro k hk ch
-  simp at hk
-  subst hk
-  simp
-
-/-- vi_insert_escape_u on a concrete navigation-mode state: `i x u Esc u` returns to it, while the
-    typed text really had changed the buffer -/
-example :
-    let v := vRun [.a, .escape] (vInit exB0)
-    v.ins = false ∧
-    (vRun ([.i] ++ [.x, .u] ++ [.escape, .u]) v).k.st.buf = viFix v.k.st.buf ∧
-    (vRun [.i, .x, .u] v).k.st.buf ≠ v.k.st.buf := by
-  decide
-
-/-- group_with_cpr_undone_as_one: `a b <CPR> c d` with a leading and a trailing CPR satisfies its hypotheses -/
-example :
-    let items : List (Option (Buf → Buf)) :=
-      [none, some (insertText ['a']), some (insertText ['b']), none, some (insertText ['c']),
-       some (insertText ['d']), none]
-    let k0 : KSt := { st := { buf := exB0, undo := [], redo := [exB0] }, prev := some 7 }
-    (runSameCpr 0 (fun rep => !rep) items k0).st.buf = { text := ['x', 'a', 'b', 'c', 'd', 'y'], cur := 5 } ∧
-    (undo (runSameCpr 0 (fun rep => !rep) items k0).st).buf = exB0 := by
-  decide
+/-- undo_reaches_initial on it -/
+example : (undoN 3 (runI exItems2 (kInit exB0)).st).buf.text = ['x', 'y'] :=
+  (undo_reaches_initial exIsEdit exItems2 exB0 exWF exExtOK 3 (by decide)).1
 
 /-- snapshots_valid: the concrete edits used here keep documents valid -/
 theorem insertText_valid (d : Text) (b : Buf) (h : Valid b) : Valid (insertText d b) := by
@@ -873,18 +479,23 @@ theorem insertText_valid (d : Text) (b : Buf) (h : Valid b) : Valid (insertText 
 theorem setCursor_valid (v : Int) (b : Buf) : Valid (setCursor v b) := by
   unfold Valid setCursor; simp; omega
 
-example : ∀ c ∈ exCmds ++ [⟨2, .undo 2 viFix⟩, ⟨3, .redo viFix⟩], c.body.KeepsValid := by
-  intro c hc
-  simp only [exCmds, List.cons_append, List.nil_append, List.mem_cons, List.not_mem_nil, or_false] at hc
-  rcases hc with rfl | rfl | rfl | rfl | rfl | rfl
+example : ∀ it ∈ exItems2, it.KeepsValid := by
+  intro it hit
+  simp only [exItems2, exItems, exCmd, List.cons_append, List.nil_append, List.mem_cons, List.not_mem_nil,
+    or_false] at hit
+  rcases hit with rfl | rfl | rfl | rfl | rfl | rfl | rfl | rfl | rfl | rfl | rfl
   · exact fun b hb => insertText_valid _ b hb
   · exact fun b hb => insertText_valid _ b hb
+  · trivial
   · exact fun b _ => setCursor_valid _ b
   · exact fun b hb => insertText_valid _ b hb
   · exact fun b hb => viFix_valid b hb
   · exact fun b hb => viFix_valid b hb
+  · exact fun b hb => insertText_valid _ b hb
+  · trivial
+  · exact fun b hb => insertText_valid _ b hb
+  · exact fun b hb => insertText_valid _ b hb
 
 end Examples
-
 
 end Ptk.C07
